@@ -247,6 +247,31 @@ func (e *Env) exec(op Op, ack *bool) error {
 			return err
 		}
 		return db.Checkpoint(ctx, op.S)
+	case "lckptwin": // litestream checkpoint (mode S); inside its window — after its PRAGMA, before it re-acquires its read lock — the application updates A rows and runs its own complete RESTART checkpoint
+		db, err := e.ls()
+		if err != nil {
+			return err
+		}
+		if e.bgDone != nil {
+			return db.Checkpoint(ctx, op.S)
+		}
+		var inner error
+		e.Logs.mu.Lock()
+		e.Logs.onCheckpoint = func() {
+			var a bool
+			if inner = e.exec(Op{K: "upd", A: op.A, B: op.B}, &a); inner == nil {
+				inner = e.exec(Op{K: "actl", S: "RESTART"}, &a)
+			}
+		}
+		e.Logs.mu.Unlock()
+		err = db.Checkpoint(ctx, op.S)
+		e.Logs.mu.Lock()
+		e.Logs.onCheckpoint = nil
+		e.Logs.mu.Unlock()
+		if err == nil && inner != nil && !isBusyText(inner.Error()) {
+			return fmt.Errorf("application work in the checkpoint window: %w", inner)
+		}
+		return err
 	case "syncwait":
 		db, err := e.ls()
 		if err != nil {
